@@ -314,3 +314,167 @@ func valueClass(v any) string {
 	}
 	return "number"
 }
+
+// ---- "readable by the other SDK": from_json must build the generated types ----------------
+
+func normName(s string) string {
+	return strings.ToLower(strings.ReplaceAll(s, "_", ""))
+}
+
+// attrOf finds the attribute holding the schema field `name` in a shape's
+// fields. The generated identifier may be escaped or re-cased (`type` ->
+// `type_val`, camelCase -> snake_case); the lookup is tolerant and never
+// copies cog's own naming code. ok=false: not found (the position is skipped).
+func attrOf(fields map[string]any, name string) (any, bool) {
+	if v, ok := fields[name]; ok {
+		return v, true
+	}
+	for _, k := range sortedKeys(fields) {
+		if normName(k) == normName(name) || normName(k) == normName(name)+"val" {
+			return fields[k], true
+		}
+	}
+	return nil, false
+}
+
+// undecoded walks the document, the schema and the shape of the object graph
+// from_json built (genrun's Python driver) in parallel and names the first
+// position whose schema type is a struct (inline, referenced, or a branch of a
+// discriminated union) but which holds a raw dict instead of an instance of a
+// generated class — data the Python SDK did not actually read into its types.
+// "" = every struct position holds a class instance. Only struct positions
+// are demanded: enums and scalars are legitimately kept as plain values.
+var structPositionsChecked int
+
+func undecoded(s gschema.Schema, t gschema.Term, pos string, doc, shape any, budget int) string {
+	if doc == nil {
+		return ""
+	}
+	if _, isObj := doc.(map[string]any); isObj && (t.K == "struct" || t.K == "ref") && pos != "root" {
+		structPositionsChecked++
+	}
+	at := " @ " + pos + " " + typeClass(t)
+	switch t.K {
+	case "ref":
+		target, ok := s.Lookup(strings.TrimPrefix(t.A, gschema.Pkg+"."))
+		if !ok || budget <= 0 {
+			return ""
+		}
+		if target.K == "struct" {
+			m, isObj := doc.(map[string]any)
+			if !isObj {
+				return ""
+			}
+			sm, _ := shape.(map[string]any)
+			cls, isClass := sm["$class"].(string)
+			if !isClass {
+				return "raw " + shapeKind(shape) + " where a generated class is declared" + at
+			}
+			if normName(cls) != normName(strings.TrimPrefix(t.A, gschema.Pkg+".")) {
+				return "instance of another class where a generated class is declared" + at
+			}
+			return undecodedFields(s, target, m, sm, budget-1)
+		}
+		d := undecoded(s, target, pos, doc, shape, budget-1)
+		return d
+	case "struct":
+		m, isObj := doc.(map[string]any)
+		if !isObj {
+			return ""
+		}
+		sm, _ := shape.(map[string]any)
+		if _, isClass := sm["$class"].(string); !isClass {
+			return "raw " + shapeKind(shape) + " where a generated class is declared" + at
+		}
+		return undecodedFields(s, t, m, sm, budget)
+	case "array":
+		a, ok := doc.([]any)
+		sa, ok2 := shape.([]any)
+		if !ok || !ok2 || len(a) != len(sa) {
+			return ""
+		}
+		for i := range a {
+			if d := undecoded(s, t.Sub[0], "item", a[i], sa[i], budget); d != "" {
+				return d
+			}
+		}
+	case "map":
+		m, ok := doc.(map[string]any)
+		sm, _ := shape.(map[string]any)
+		sd, ok2 := sm["$dict"].(map[string]any)
+		if !ok || !ok2 {
+			return ""
+		}
+		for _, k := range sortedKeys(m) {
+			if sv, has := sd[k]; has {
+				if d := undecoded(s, t.Sub[1], "value", m[k], sv, budget); d != "" {
+					return d
+				}
+			}
+		}
+	case "disj":
+		m, isObj := doc.(map[string]any)
+		if !isObj {
+			return ""
+		}
+		// the branch is the struct whose discriminator constant the document carries
+		for _, b := range t.Sub {
+			if b.K != "ref" {
+				continue
+			}
+			target, ok := s.Lookup(strings.TrimPrefix(b.A, gschema.Pkg+"."))
+			if !ok || target.K != "struct" {
+				continue
+			}
+			for i, f := range target.Fields {
+				ft := target.Sub[i]
+				if ft.K == "const" && strings.HasPrefix(ft.A, "disc:") && m[f.Name] == strings.TrimPrefix(ft.A, "disc:") {
+					d := undecoded(s, b, pos, doc, shape, budget)
+					if d != "" {
+						// name the position by the union, not by the branch
+						return d[:strings.Index(d, " @ ")] + at
+					}
+					return ""
+				}
+			}
+		}
+	}
+	return ""
+}
+
+func undecodedFields(s gschema.Schema, t gschema.Term, m, sm map[string]any, budget int) string {
+	fields, _ := sm["fields"].(map[string]any)
+	for i, f := range t.Fields {
+		v, present := m[f.Name]
+		if !present {
+			continue
+		}
+		sv, ok := attrOf(fields, f.Name)
+		if !ok {
+			continue
+		}
+		pos := "optional"
+		if f.Required {
+			pos = "required"
+		}
+		if d := undecoded(s, t.Sub[i], pos, v, sv, budget); d != "" {
+			return d
+		}
+	}
+	return ""
+}
+
+func shapeKind(shape any) string {
+	switch x := shape.(type) {
+	case map[string]any:
+		if _, ok := x["$dict"]; ok {
+			return "dict"
+		}
+		return "object"
+	case []any:
+		return "list"
+	case string:
+		return x
+	}
+	return "value"
+}
